@@ -21,6 +21,7 @@ import LzmaVerif.Generated.TwinParams
 import Driver.MfHc4
 import Driver.MfBt4
 import Driver.EncFast
+import Driver.MtTrace
 /-! Request handlers: each maps a parsed request to the canonical answer line. -/
 namespace Driver
 open LzmaVerif
@@ -380,6 +381,7 @@ def handleTwin (cmd : String) (a : Args) : String :=
 
 def handle (cmd : String) (a : Args) : String :=
   match cmd with
+  | "mt.trace" => handleMtTrace a
   | "twin.extend" | "twin.norm" => handleTwin cmd a
   | "encfast.parse" | "lzma.parse" => handleEncFast cmd a
   | "mf.trace" => if a.get? "kind" == some "bt4" then handleMfBt4 a else handleMfTraceHc4 a
